@@ -60,7 +60,7 @@ def build_instances(rng, case, per_base=10, part=None):
                 return gen_lit(rng, n)
             return gen_formula(rng, n, 1, 0.03)
         A, B, C = pick(), pick(), pick()
-        if deep and rng.random() < 0.5:
+        if deep and rng.random() < 0.7:
             B, A = rng.choice(deep)
             if rng.random() < 0.5:
                 C = Not(B) if rng.random() < 0.5 else rng.choice(deep)[0]
@@ -112,12 +112,15 @@ def run(tier, seed, broken_proof=False):
     samples = []
     dis_total = 0
     for weakly in (False, True):
-        cand = ops.corpus_cases(weakly) + ops.gen_ops_cases(rng, count * 2, weakly, max_atoms=4 if tier == "quick" else 5, nq=0, prefix="p%d" % weakly)
+        cand = ops.corpus_cases(weakly) + ops.gen_ops_cases(rng, count * 4, weakly, max_atoms=4 if tier == "quick" else 5, nq=0, prefix="p%d" % weakly)
         m0 = common.run_model(cand)
-        bases = [c for c in cand if m0[c["id"]]["part"] is not None and c["base"]][:count]
+        ok = [c for c in cand if m0[c["id"]]["part"] is not None and c["base"]]
+        nfin = lambda c: len(m0[c["id"]]["part"]) - (1 if weakly else 0)
+        multi = [c for c in ok if nfin(c) >= 2][: int(count * 0.7)]       # postulates are decided below the top layer only there
+        bases = multi + [c for c in ok if nfin(c) < 2][: count - len(multi)]
         cases, insts = [], {}
         for c in bases:
-            qs, inst = build_instances(rng, c, per_base=6 if tier == "quick" else 10, part=m0[c["id"]]["part"])
+            qs, inst = build_instances(rng, c, per_base=(6 if tier == "quick" else 10) + (3 if nfin(c) >= 2 else 0), part=m0[c["id"]]["part"])
             cc = make_case(c["id"], c["n"], c["base"], qs, weakly)
             cases.append(cc)
             insts[cc["id"]] = inst
